@@ -62,7 +62,7 @@ func checkC02(r *mon.Run) {
 			}
 		}
 	})
-	r.Require(int64(r.Pick(3000, 50000)), 12, "delivered", "crossed_sibling")
+	r.Require(int64(r.Pick(1500, 50000)), 12, "delivered", "crossed_sibling")
 	r.RequireClasses()
 }
 
@@ -149,7 +149,7 @@ func checkC22(r *mon.Run) {
 			}
 		}
 	})
-	r.Require(int64(r.Pick(2000, 50000)), 20, "wire_checked", "wire_nonconsdir_external", "wire_peering", "wire_after_xover", "future_segment_checked")
+	r.Require(int64(r.Pick(1500, 50000)), 20, "wire_checked", "wire_nonconsdir_external", "wire_peering", "wire_after_xover", "future_segment_checked")
 }
 
 func judgeC22(r *mon.Run, w *world, f *flow, in []byte, wk *simnet.Walk) {
